@@ -73,9 +73,7 @@ func NewNode(f *Factory, cacheSize uint64) (*Node, error) {
 func (n *Node) open() error {
 	n.Time = &FixedTime{T: n.F.Now()}
 	// fresh params per chain instance (deployment starters keep a back-pointer)
-	fresh := NewParams(n.F.Base, NetOpts{Maturity: n.F.Params.CoinbaseMaturity, BIP34: n.F.Params.BIP0034Height < 1000})
-	fresh.GenesisBlock = n.F.Params.GenesisBlock
-	fresh.GenesisHash = n.F.Params.GenesisHash
+	fresh := n.F.NodeParams()
 	chain, err := blockchain.New(&blockchain.Config{
 		DB:               n.DB,
 		ChainParams:      fresh,
@@ -224,6 +222,9 @@ func (f *Factory) NaiveFold(path []int) (map[wire.OutPoint]Coin, int) {
 			}
 			th := tx.TxHash()
 			for oi, o := range tx.TxOut {
+				if unspendable(o.PkScript) {
+					continue
+				}
 				set[wire.OutPoint{Hash: th, Index: uint32(oi)}] = Coin{o.Value, o.PkScript, ti == 0, h}
 			}
 		}
@@ -246,6 +247,9 @@ func (f *Factory) preFold() (map[wire.OutPoint]Coin, int) {
 			}
 			th := tx.TxHash()
 			for oi, o := range tx.TxOut {
+				if unspendable(o.PkScript) {
+					continue
+				}
 				set[wire.OutPoint{Hash: th, Index: uint32(oi)}] = Coin{o.Value, o.PkScript, ti == 0, int32(i + 1)}
 			}
 		}
@@ -273,6 +277,9 @@ func (f *Factory) SpentBy(path []int) map[int][]Coin {
 			}
 			th := tx.TxHash()
 			for oi, o := range tx.TxOut {
+				if unspendable(o.PkScript) {
+					continue
+				}
 				set[wire.OutPoint{Hash: th, Index: uint32(oi)}] = Coin{o.Value, o.PkScript, ti == 0, h}
 			}
 		}
